@@ -57,6 +57,15 @@ def _sched(body):
     return st.tuples(st.just("sched"), st.integers(0, 2), VAL, OBJ, st.sampled_from(DTS), PRIOS, body)
 
 
+def _storm():
+    """6-14 events at generated distinct-ish times (so that the heap array takes many shapes), half of them
+    with the same subject, then a pattern cancel / count / find on that subject, then queries"""
+    one = st.tuples(st.just("sched"), st.integers(0, 2), st.sampled_from([0, 0, 1]), st.just("u"),
+                    st.integers(1, 12).map(float), st.sampled_from([0, 0, 0, 1]), st.just([]))
+    return st.tuples(st.just("seq"), st.lists(one, min_size=6, max_size=14),
+                     st.sampled_from(["pcancel", "pcancel", "pcount", "pfind"]), st.sampled_from([0, 0, 1]))
+
+
 def _ops(level):
     if level >= 2:
         body = st.just([])
@@ -70,7 +79,7 @@ def _op(level):
     if level == 0:
         base += [st.tuples(st.just("exec"), st.integers(1, 4)),
                  st.tuples(st.just("exec"), st.integers(1, 4)),
-                 st.just(("run",)),
+                 st.just(("run",)), _storm(),
                  st.tuples(st.just("burst"), st.sampled_from([3, 7, 8, 9, 17, 33, 65, 300]),
                            st.lists(_sched(st.just([])), min_size=1, max_size=3))]
     base += [st.sampled_from([("clear",), ("query",), ("query",), ("query",), ("query",), ("query",)])]
@@ -95,6 +104,11 @@ def _emit(lines, o, depth):
         lines.append("%ssched %d %s %s %s %s" % (pre, o[1], o[2], o[3], fhex(o[4]), o[5]))
         for b in o[6]:
             _emit(lines, b, depth + 1)
+    elif k == "seq":
+        for b in o[1]:
+            _emit(lines, b, depth)
+        lines.append("%s%s * %s *" % (pre, o[2], o[3]))
+        lines.append(pre + "query")
     elif k == "burst":
         n, templ = o[1], o[2]
         for j in range(n):
